@@ -134,8 +134,14 @@ class Prop(SeqProp):
                     out.append(line)
                 elif w[0] == "mincomb":
                     sc = [int(x) for x in w[3:]]
-                    els = list(range(len(sc)))
-                    out.append(fmt(g.min_combinations_in_interval_iter_sorted(els, sc, int(w[1]), int(w[2]))))
+                    if len(sc) % 2:
+                        els = list(range(len(sc)))
+                        out.append(fmt(g.min_combinations_in_interval_iter_sorted(els, sc, int(w[1]), int(w[2]))))
+                    else:
+                        # elements that cannot be ordered or compared with each other (records): only their scores count
+                        els = [{"record": i} for i in range(len(sc))]
+                        res = g.min_combinations_in_interval_iter_sorted(els, sc, int(w[1]), int(w[2]))
+                        out.append(fmt([([e["record"] for e in c], k) for c, k in res]))
                 elif w[0] == "minsteps":
                     sc = [int(x) for x in w[3:]]
                     seen = [0]
